@@ -212,6 +212,67 @@ class SourceFile:
                 return self._mk("macro", name, self._item_start(k), toks[close].end)
         raise LostAnchor("macro_rules! %s not found in %s" % (name, self.rel))
 
+    def macro_instance(self, name, args, fn_name, log=None):
+        """R-macro: the body of the (single-rule, non-recursive) macro `name` with `$param` replaced by the
+        invocation's arguments -- what rustc's expander does -- then the method `fn_name` of the impl block in it."""
+        mac = self.macro_rules(name)
+        # the invocation must exist with exactly these arguments
+        inv = "%s!(" % name
+        if inv not in self.src:
+            raise LostAnchor("macro %s! is never invoked in %s" % (name, self.rel))
+        m = re.search(r"=>\s*\{", mac.text)
+        if not m:
+            raise LostAnchor("macro %s: no rule body" % name)
+        toks = rl.lex(mac.text)
+        # body = outermost { ... } after `=>`
+        ob = None
+        for i, t in enumerate(toks):
+            if t.start >= m.end() - 1 and t.kind == "punct" and t.text == "{":
+                ob = i
+                break
+        cb = rl.match_close(toks, ob)
+        body_start = toks[ob].end
+        body = mac.text[body_start:toks[cb].start]
+        for k, v in args.items():
+            if "\n" in v:
+                raise LostAnchor("macro argument with newline")
+            body = re.sub(r"\$" + re.escape(k) + r"\b", lambda _m: v, body)
+        if re.search(r"\$[A-Za-z_]", body):
+            raise LostAnchor("macro %s: unsubstituted metavariable remains" % name)
+        btoks = rl.lex(body)
+        bcode = rl.code_toks(btoks)
+        # impl header
+        hdr = None
+        for k, ti in enumerate(bcode):
+            t = btoks[ti]
+            if t.kind == "ident" and t.text == "impl" and t.depth == 0:
+                for ti2 in bcode[k + 1:]:
+                    if btoks[ti2].kind == "punct" and btoks[ti2].text == "{" and btoks[ti2].depth == 0:
+                        hdr = body[t.start:btoks[ti2].end]
+                        break
+                break
+        if hdr is None:
+            raise LostAnchor("macro %s: no impl block in body" % name)
+        fstart = fend = None
+        for k, ti in enumerate(bcode[:-1]):
+            t = btoks[ti]
+            if t.kind == "ident" and t.text == "fn" and t.depth == 1 and btoks[bcode[k + 1]].text == fn_name:
+                fstart = t.start
+                for ti2 in bcode[k + 1:]:
+                    t2 = btoks[ti2]
+                    if t2.kind == "punct" and t2.text == "{" and t2.depth == 1:
+                        fend = btoks[rl.match_close(btoks, ti2)].end
+                        break
+                break
+        if fstart is None or fend is None:
+            raise LostAnchor("macro %s: fn %s not found in body" % (name, fn_name))
+        line = mac.line + mac.text.count("\n", 0, body_start) + body.count("\n", 0, fstart)
+        text = body[fstart:fend]
+        ty = re.match(r"impl\s*(<.*?>)?\s*([A-Za-z_]\w*)", " ".join(hdr.split())).group(2)
+        it = Item(self.rel, "method", "%s::%s" % (ty, fn_name), text, mac.start, mac.end, line, line + text.count("\n"),
+                  impl_header=hdr, impl_key=" ".join(hdr.split())).finish()
+        return it
+
     def span_between(self, name, start_pat, end_pat, within_item=None):
         """verbatim statement slice: text strictly between the first occurrence of
         start_pat and the following occurrence of end_pat (both literal), inside
@@ -242,6 +303,8 @@ def extract(repo_root, spec, cache):
         return sf.impl_block(spec["impl"], spec["trait"])
     if kind == "macro":
         return sf.macro_rules(spec["name"])
+    if kind == "macro_inst":
+        return sf.macro_instance(spec["name"], spec["args"], spec["fn"])
     if kind == "slice":
         within = None
         if "within" in spec:
